@@ -150,6 +150,16 @@ def lib_exception_failure(exc: BaseException, where: str = "") -> Failure:
 # known findings
 
 
+def finding_matches(entry, sig: str) -> bool:
+    """A listed finding matches a failure signature exactly ('sig') or by 'sig_re' (full match)."""
+    import re
+
+    if entry.get("sig") == sig:
+        return True
+    pat = entry.get("sig_re")
+    return bool(pat and re.fullmatch(pat, sig))
+
+
 def load_known(pid: str):
     path = os.path.join(VERIF, "known_findings.json")
     if not os.path.exists(path):
@@ -176,14 +186,15 @@ class Ctx:
         self.nshards = nshards
         self.subchecks = subchecks or {}
         known = load_known(pid)
-        self.open_sigs = {e["sig"]: e for e in known if e.get("status") == "open"}
+        self.open_findings = [e for e in known if e.get("status") == "open"]
         self.evaluations = 0
         self.sub_evals = Counter()
         self.sub_nontrivial = Counter()
         self.nontrivial = set()
         self.block_nontrivial = 0
         self.classes = Counter()
-        self.known_hits = Counter()
+        self.known_hits = Counter()  # finding id -> hits
+        self.known_sigs = Counter()  # failure signature -> hits
         self.samples = []
         self.sub_sampled = Counter()
         self.violations = []  # dicts {sub, sig, msg, replay}
@@ -261,9 +272,11 @@ class Ctx:
 
     def _failed(self, sub, case, f: Failure):
         sig = f"{sub}:{f.sig}"
-        if sig in self.open_sigs:
-            self.known_hits[sig] += 1
-            return None
+        for e in self.open_findings:
+            if finding_matches(e, sig):
+                self.known_hits[e["id"]] += 1
+                self.known_sigs[sig] += 1
+                return None
         f.sub = sub
         f.case = case
         f.full_sig = sig
@@ -354,6 +367,7 @@ class Ctx:
             "block_nontrivial": self.block_nontrivial,
             "classes": dict(self.classes),
             "known_hits": dict(self.known_hits),
+            "known_sigs": dict(self.known_sigs),
             "samples": self.samples,
             "violations": self.violations,
             "exhaustive": self.exhaustive,
